@@ -458,14 +458,15 @@ func (r Registers) StringWithByteOrder(address uint16, length uint8, byteOrder B
 	if address < r.startAddress {
 		return "", errors.New("address under startAddress bounds")
 	}
-	startIndex := (address - r.startAddress) * 2
-	endIndex := startIndex + uint16(length)
+	// NB: address far beyond the start address would wrap around in uint16 arithmetic and pass the bounds check
+	startIndex := (int(address) - int(r.startAddress)) * 2
+	endIndex := startIndex + int(length)
 	// length is bytes. but data is sent in registers (2 bytes) and in big endian format. so last character for odd size
 	// needs 1 more byte (it needs to be swapped)
 	if length%2 != 0 {
 		endIndex++
 	}
-	if int(endIndex) > len(r.data) {
+	if endIndex > len(r.data) {
 		return "", errors.New("address over data bounds")
 	}
 
